@@ -6,36 +6,7 @@ Import ListNotations.
 Local Open Scope string_scope.
 
 (* ------------------------------------------------------------------ *)
-(** * Facts about the tree machine that need no hypothesis on identities *)
-
-(* whatever is found is one of the classes below the stack's entries *)
-Lemma trun_found_in : forall f st P a n,
-    trun f st P a = Found n -> In n (forest_order st) /\ thas a n = true.
-Proof.
-  induction f as [|f IH]; intros st P a n H; [discriminate|].
-  unfold trun, tree_run in *. simpl in H. destruct st as [|p rest]; [discriminate|].
-  destruct (negb (mem_id (t_id p) P)).
-  - apply IH in H as [H Ha]. split; [|exact Ha]. rewrite forest_order_app in H.
-    apply in_app_or in H as [H|H]; [|exact H].
-    rewrite forest_order_cons. apply in_or_app. left.
-    destruct p as [c al ch]. rewrite visit_order_node. apply in_or_app. now left.
-  - destruct (has_alias ctree t_al a p) eqn:E.
-    + inversion H; subst. split; [|exact E]. rewrite forest_order_cons. apply in_or_app. left.
-      destruct n as [c al ch]. rewrite visit_order_node. apply in_or_app. right. now left.
-    + apply IH in H as [H Ha]. split; [|exact Ha]. rewrite forest_order_cons.
-      apply in_or_app. now right.
-Qed.
-
-Lemma tree_from_alias_in t a c :
-  tree_from_alias t a = Some c ->
-  exists n, In n (visit_order t) /\ t_id n = c /\ In a (t_al n).
-Proof.
-  unfold tree_from_alias. destruct (tree_run (tree_fuel t) [t] [] a) as [n| |] eqn:E; try discriminate.
-  intros H. inversion H; subst. apply trun_found_in in E as [E Ha].
-  exists n. repeat split.
-  - unfold forest_order in E. simpl in E. now rewrite app_nil_r in E.
-  - unfold has_alias in Ha. now apply mem_str_true.
-Qed.
+(** * What from_alias instantiates lies in the family ([tree_from_alias_in]: ProofsTree.v) *)
 
 Lemma tree_from_alias_is_subclass r fam ft a c :
   subtree (r_tree r) fam = Some ft -> tree_from_alias ft a = Some c ->
